@@ -23,6 +23,10 @@ var (
 	// ErrMissingAddrs indicates that no subnets were provided with addresses to select from. This
 	// is only valid for phantomHkdfMinVersion and newer.
 	ErrMissingAddrs = errors.New("no valid addresses specified to select")
+
+	// ErrNoWeightedSubnets indicates that weighted selection was requested but the weights of the
+	// subnet groups add up to zero.
+	ErrNoWeightedSubnets = errors.New("no subnets with a non-zero weight to select from")
 )
 
 // getSubnetsHkdf returns EITHER all subnet strings as one composite array if
@@ -59,6 +63,11 @@ func getSubnetsHkdf(sc genericSubnetConfig, seed []byte, weighted bool) ([]*phan
 		sort.Slice(choices, func(i, j int) bool {
 			return choices[i].GetWeight() < choices[j].GetWeight()
 		})
+
+		// rand.Int panics if its bound is not positive
+		if totWeight <= 0 {
+			return nil, ErrNoWeightedSubnets
+		}
 
 		// Naive method: get random int, subtract from weights until you are < 0
 		hkdfReader := hkdf.New(sha256.New, seed, nil, []byte("phantom-select-subnet"))
